@@ -58,7 +58,16 @@ impl TypeScheme {
             TypeScheme::Quantified(n_gen, _) => {
                 // TODO: is this a good idea? we don't take care of name clashes here
                 let type_parameters = match type_parameters {
-                    Some(tp) if tp.len() == *n_gen => tp.map(TypeVariable::new).collect(),
+                    Some(tp) if tp.len() == *n_gen => {
+                        // The quantified variables are numbered in the order of the *sorted*
+                        // names of the free variables (see `generalize`), not in the order in
+                        // which the user declared the type parameters: instantiate them in that
+                        // order, but hand back the parameters as they were declared.
+                        let declared: Vec<TypeVariable> = tp.map(TypeVariable::new).collect();
+                        let mut sorted = declared.clone();
+                        sorted.sort();
+                        return (self.instantiate_with(&sorted), declared);
+                    }
                     _ => {
                         if *n_gen <= 26 {
                             (0..*n_gen)
